@@ -62,7 +62,7 @@ def var_block(v, extra=()):
     L += list(extra)
     if v["type"] == "z":
         L += ["  distanceZ {", "    main { atomNumbers %d }" % (2 * i + 1), "    ref { dummyAtom (0,0,0) }",
-              "    axis (0,0,1)", "  }"]
+              "    axis (0,0,1)", "    oneSiteTotalForce on", "  }"]
     else:
         L += ["  distanceVec {", "    group1 { atomNumbers %d }" % (2 * i + 2), "    group2 { atomNumbers %d }" % (2 * i + 1),
               "  }"]
@@ -423,7 +423,8 @@ def check_traj_case(run, c, k, impl_lines, scratch, model):
     calcs, misc = parse_dump(impl_lines)
     ncalc = sum(1 for e in c["events"] if e[0] == "step")
     replay = {"kind": "traj", "case": c}
-    if len(calcs) != ncalc or any(cc["err"] != "ok" for cc in calcs) or any(l.startswith("CONFIG err=") and "err=ok" not in l for l in misc):
+    if len(calcs) != ncalc or any(cc["err"] != "ok" for cc in calcs) or any(l.startswith("CONFIG err=") and "err=ok" not in l for l in misc) \
+            or any(l.startswith("SCRIPT err=") and "err=ok" not in l for l in misc):
         run.mismatch("trajrun", c, [l for l in impl_lines if "err=" in l][:6], "every step and configuration succeeds")
         return 0
     segs = traj_model_and_expect(c, calcs)
